@@ -2,6 +2,7 @@ package props
 
 import (
 	"fmt"
+	"math"
 	"net/url"
 	"reflect"
 	"sort"
@@ -229,6 +230,22 @@ func TestC08FixedPoint(t *testing.T) {
 		ss := gen.CoherentSchema(t, o)
 		req := gen.URLRequest(t, ss, gen.URLOpts{Valid: true})
 		raw := req.Render(t, "render")
+
+		// Now and then something went wrong in the process just before: a
+		// hand-built URL whose filter cannot be written (String() panics on
+		// it, as the library documents). The URL under test is not concerned.
+		if rapid.IntRange(0, 19).Draw(t, "poison") == 0 {
+			bad := &jsonapi.URL{Fragments: []string{ss.Types[0].Name, "left over"}, ResType: ss.Types[0].Name, Params: &jsonapi.Params{
+				Fields: map[string][]string{ss.Types[0].Name: {"left", "over"}},
+				Filter: &jsonapi.Filter{Field: "x", Op: "=", Val: math.Inf(1)},
+			}}
+
+			func() {
+				defer func() { _ = recover() }()
+
+				_ = bad.String()
+			}()
+		}
 
 		var (
 			u   *jsonapi.URL
